@@ -173,6 +173,15 @@ class C02Update:
             sim._c02_last = {"step": rec["step"], "stage": rec["stage"], "dt": rec["dt"], "psi": np.array(rec["result"][0], copy=True)}
         kw = rec["kw"]
         psi = np.asarray(kw["psi"])
+        if rec["screen_iter"] == 0 and np.all(np.isfinite(psi)):
+            # z and w are defined with |psi^n|^2 of the psi^n the call is given (later screening
+            # iterations re-use the first iterate's value by design and are not judged here)
+            a2_in = np.asarray(kw["abs_sq_psi"], dtype=float)
+            want = np.abs(psi) ** 2
+            bad = np.abs(a2_in - want) > 1e-12 * (1 + want)
+            if np.any(bad) and float(np.max(want)) < 1e40:
+                i = int(np.argmax(np.abs(a2_in - want)))
+                return [Violation("abs-sq-inconsistent", f"step {rec['step']}: the update is evaluated with |psi^n|^2 = {a2_in[i]:.12g} at site {i} where |psi^n|^2 = {want[i]:.12g}: psi' does not solve the documented equation for psi^n", step=rec["step"], stage=rec["stage"], gamma=float(kw["gamma"]), dt=float(kw["dt"]))]
         a2 = np.asarray(kw["abs_sq_psi"], dtype=float)
         mu = np.asarray(kw["mu"], dtype=float)
         eps = np.asarray(kw["epsilon"], dtype=float)
@@ -268,7 +277,9 @@ class C06Pinning:
             cols = indices[indptr[i] : indptr[i + 1]]
             vals = data[indptr[i] : indptr[i + 1]]
             nz = vals != 0
-            if nz.sum() == 1 and cols[nz][0] == i and vals[nz][0] == 1:
+            # a pinned row couples the site to nothing but itself (a site shared by two
+            # overlapping terminals carries the eigenvalue twice)
+            if nz.sum() == 1 and cols[nz][0] == i:
                 ident[i] = True
         got = set(np.where(ident)[0].tolist())
         want = set(c.pinned.tolist())
